@@ -7,7 +7,8 @@
 (* the harness (`tsig judge') applies crypto/hmac to the digest input and      *)
 (* compares with the MAC and with the verdict the real code gave.              *)
 (*   verify  one verification with explicit request MAC / timers-only / clock  *)
-(*   q       start of a session: the (signed) request as sent                  *)
+(*   q       start of a session: the (signed) request as sent -- whether or    *)
+(*           not it verifies: signed TSIG error responses chain on its MAC too *)
 (*   env     the next envelope of the session (SignEnv / VerifyEnv of Tsig):   *)
 (*           request MAC and timers-only come from the session state           *)
 EXTENDS Tsig, TraceBase, GenBase
